@@ -249,11 +249,14 @@ def evaluate__instance_expression(self: XPathToken, context: ta.ContextType = No
             if context.axis is None:
                 context.axis = 'self'
 
+            item = context.item
             result = self[1].evaluate(context)
-            if isinstance(result, list) and not result:
+            context.item = item
+            if isinstance(result, list) and all(x is not item for x in result):
                 # An item that does not match the test, whatever the occurrence indicator
-                return isinstance(context.item, XPathFunction) and \
-                    context.item.name == XSD_ERROR and occurs in ('*', '?')
+                # (a kind test can select other nodes, e.g. the attributes of an element)
+                return isinstance(item, XPathFunction) and \
+                    item.name == XSD_ERROR and occurs in ('*', '?')
             elif position and occurs in ('', '?'):
                 return False
         else:
@@ -300,7 +303,7 @@ def evaluate__treat_expression(self: XPathToken, context: ta.ContextType = None)
             item_context.item = item
             item_context.axis = 'self'
             result = self[1].evaluate(item_context)
-            if not result and isinstance(result, list):
+            if isinstance(result, list) and all(x is not item for x in result):
                 raise self.error('XPDY0050')
             elif position and occurs in ('', '?'):
                 raise self.error('XPDY0050', "more than one item in sequence")
